@@ -153,6 +153,9 @@ class OsetEngine(Engine):
                 if kind == 'iter_next':
                     op['rm'] = weighted(rng, [(5, None), (2, 'discard'), (1, 'remove'),
                                               (1, 'isub'), (1, 'pop')])
+                    if op['rm'] and rng.random() < 0.3:
+                        # "replace" in the loop body: the visited element goes, another one comes
+                        op['add'] = rng.randrange(UNIVERSE_N)
                 else:
                     del iters[it]
                 ops.append(op)
@@ -396,7 +399,12 @@ class OsetEngine(Engine):
                         done = False
                     except StopIteration:
                         got, done = None, True
-                    if st['pos'] >= len(st['snap']):
+                    if st['pos'] >= len(st['snap']) and not done and any(got is e for e in st.get('extra', [])):
+                        # an element that was added while the iterator was suspended may be visited (once) or not
+                        st['extra'] = [e for e in st['extra'] if e is not got]
+                        outcome = 'extra'
+                        bump(probes, 'iter_visited_added_element')
+                    elif st['pos'] >= len(st['snap']):
                         if not done:
                             raise Violation('iter', 'iterator over set %d yielded %r after all %d elements of '
                                             'its snapshot %s (repeat)' % (s, uidx(got), len(st['snap']), render(st['snap'])))
@@ -431,6 +439,13 @@ class OsetEngine(Engine):
                             else:
                                 real[s].discard(got)
                             ref[s] = [x for x in ref[s] if x is not got]
+                            if op.get('add') is not None:
+                                e = U[op['add']]
+                                if e not in ref[s] and e is not got and not (e == got):
+                                    real[s].add(e)
+                                    ref[s].append(e)
+                                    st.setdefault('extra', []).append(e)
+                                    bump(faults, 'F7_iter_replace_current')
                 elif kind == 'add':
                     invalidate(s)
                     e = U[op['e']]
